@@ -323,6 +323,10 @@ func (s *SFlowDatagram) DecodeFromBytes(data []byte, df gopacket.DecodeFeedback)
 		return fmt.Errorf("SFlow Datagram has invalid sample length: %d", s.SampleCount)
 	}
 	for i := uint32(0); i < s.SampleCount; i++ {
+		if len(data) < 4 {
+			df.SetTruncated()
+			return errors.New("SFlow datagram too short for sample header")
+		}
 		sdf := SFlowDataFormat(binary.BigEndian.Uint32(data[:4]))
 		_, sampleType := sdf.decode()
 		switch sampleType {
@@ -459,14 +463,27 @@ func (fs SFlowFlowSample) GetType() SFlowSampleType {
 	return SFlowTypeFlowSample
 }
 
-func skipRecord(data *[]byte) {
+func skipRecord(data *[]byte) error {
+	if len(*data) < 8 {
+		return errors.New("sflow record too small")
+	}
 	recordLength := int(binary.BigEndian.Uint32((*data)[4:]))
-	*data = (*data)[(recordLength+((4-recordLength)%4))+8:]
+	// recordLength is read from the packet: the record must fit into the
+	// remaining bytes.
+	skip := (recordLength + ((4 - recordLength) % 4)) + 8
+	if skip < 0 || skip > len(*data) {
+		return fmt.Errorf("sflow record length %d exceeds remaining buffer", recordLength)
+	}
+	*data = (*data)[skip:]
+	return nil
 }
 
 func decodeFlowSample(data *[]byte, expanded bool) (SFlowFlowSample, error) {
 	s := SFlowFlowSample{}
 	var sdf SFlowDataFormat
+	if len(*data) < 4 {
+		return SFlowFlowSample{}, errors.New("flow sample too small")
+	}
 	*data, sdf = (*data)[4:], SFlowDataFormat(binary.BigEndian.Uint32((*data)[:4]))
 	var sdc SFlowDataSource
 
@@ -541,6 +558,9 @@ func decodeFlowSample(data *[]byte, expanded bool) (SFlowFlowSample, error) {
 	*data, s.RecordCount = (*data)[4:], binary.BigEndian.Uint32((*data)[:4])
 
 	for i := uint32(0); i < s.RecordCount; i++ {
+		if len(*data) < 4 {
+			return s, errors.New("flow sample too small for record header")
+		}
 		rdf := SFlowFlowDataFormat(binary.BigEndian.Uint32((*data)[:4]))
 		enterpriseID, flowRecordType := rdf.decode()
 
@@ -683,7 +703,9 @@ func decodeFlowSample(data *[]byte, expanded bool) (SFlowFlowSample, error) {
 				return s, fmt.Errorf("Unsupported flow record type: %d", flowRecordType)
 			}
 		} else {
-			skipRecord(data)
+			if err := skipRecord(data); err != nil {
+				return s, err
+			}
 		}
 	}
 	return s, nil
@@ -795,6 +817,15 @@ func decodeCounterSample(data *[]byte, expanded bool) (SFlowCounterSample, error
 	var sdce SFlowDataSourceExpanded
 	var sdf SFlowDataFormat
 
+	// format + sample length + sequence number + source id + record count;
+	// the expanded form has a source id of 8 bytes instead of 4.
+	headerLen := 20
+	if expanded {
+		headerLen = 24
+	}
+	if len(*data) < headerLen {
+		return SFlowCounterSample{}, errors.New("counter sample too small")
+	}
 	*data, sdf = (*data)[4:], SFlowDataFormat(binary.BigEndian.Uint32((*data)[:4]))
 	s.EnterpriseID, s.Format = sdf.decode()
 	*data, s.SampleLength = (*data)[4:], binary.BigEndian.Uint32((*data)[:4])
@@ -809,6 +840,9 @@ func decodeCounterSample(data *[]byte, expanded bool) (SFlowCounterSample, error
 	*data, s.RecordCount = (*data)[4:], binary.BigEndian.Uint32((*data)[:4])
 
 	for i := uint32(0); i < s.RecordCount; i++ {
+		if len(*data) < 4 {
+			return s, errors.New("counter sample too small for record header")
+		}
 		cdf := SFlowCounterDataFormat(binary.BigEndian.Uint32((*data)[:4]))
 		_, counterRecordType := cdf.decode()
 		switch counterRecordType {
